@@ -133,10 +133,14 @@ def run_scenario(sc: dict) -> tuple[list[Violation], dict]:
                 continue
             # the last run: stream it while its step is parked
             seen2: list = []
+            refused: list = []
 
             async def consume() -> None:
-                async for e in h.stream_events():
-                    seen2.append(e)
+                try:
+                    async for e in h.stream_events():
+                        seen2.append(e)
+                except WorkflowRuntimeError as ex:  # the accepted run's own (first) consumer is told "already consumed"
+                    refused.append(str(ex))
 
             ct = asyncio.create_task(consume())
             try:
@@ -147,6 +151,13 @@ def run_scenario(sc: dict) -> tuple[list[Violation], dict]:
                 return
             for _ in range(50):
                 await asyncio.sleep(0)
+            if refused:
+                out.append(Violation("C04/reuse_stream_refused",
+                                     f"{tag}: accepted with a reused run_id and running, but the first consumer of its stream_events() was refused "
+                                     f"({refused[0]!r}) after {[type(e).__name__ for e in seen2]}: its stream carries no terminal event of its own", sc))
+                wf.gates[tag].set()
+                await _finish(h, r["kind"])
+                return
             if ct.done() and not h.is_done():
                 out.append(Violation("C04/reuse_stream_ended_while_running",
                                      f"{tag}: stream_events() ended on {seen2[-1] if seen2 else None!r} while the run was still running", sc))
@@ -156,6 +167,11 @@ def run_scenario(sc: dict) -> tuple[list[Violation], dict]:
                 await asyncio.wait_for(ct, 50)
             except asyncio.TimeoutError:
                 out.append(Violation("C04/reuse_consumer_never_terminates", f"{tag}: run finished ({got}) but stream_events() did not end", sc))
+                return
+            if refused:
+                out.append(Violation("C04/reuse_stream_refused",
+                                     f"{tag}: accepted with a reused run_id, but the first consumer of its stream_events() was refused "
+                                     f"({refused[0]!r}) after {[type(e).__name__ for e in seen2]}: its stream carries no terminal event of its own", sc))
                 return
             terms = [e for e in seen2 if _is_terminal(e)]
             foreign = [e for e in seen2 if (isinstance(e, Progress) and e.tag != tag) or (type(e) is StopEvent and e.result != tag)]
